@@ -12,6 +12,7 @@
    cache.key     {truthy: bool, parent: str, name: str} → {key: ["pair",p,n]|["bare",n], old: str}
    cache.session {rqs: [{truthy: bool, parent: str, name: str}…], world: W, noCache: bool,
                   ops: [["run",c,l,rq] | ["world",W] | ["clearAll"] | ["clearLoaders"] | ["clearPipes",l|null]
+                        | ["clearSeq",[cache name…],[[op…]…]] | ["clearPipesSeq",[l…],[[op…]…]]
                         | ["clearFiles"] | ["clearSteps"] | ["noCache",b]…]}
                  W = {resolve: [[rq, file|null]…], fileVer: [[file, ver]…], custom: [[l, rq, ver|null]…]}
                  (requests not listed resolve to nothing / raise)
@@ -163,6 +164,26 @@ def lopOfJson (rqs : Array Rq) (j : Json) : Except String LOp := do
   | [.str "noCache", .bool b] => pure (.setNoCache b)
   | _ => .error "bad session op"
 
+/-- one wire operation → the model operations it stands for. `["clearSeq", [cache name…], [[op…]…]]` =
+    `clear_all` as the sequence of `<name>.clear()` calls given (the harness reads the names off
+    pypyr/cache/admin.py), `gaps[i]` = what other threads complete before the i-th of ALL named clears
+    (also those with no counterpart in the model), `gaps[n]` after the last; `["clearPipesSeq", [l…], gaps]`
+    likewise for the `Loader.clear()` calls of `clear_pipes()`. -/
+def lopsOfJson (rqs : Array Rq) (j : Json) : Except String (List LOp) := do
+  let gapsOf (g : Json) : Except String (List (List LOp)) := do
+    (← g.getArr?).toList.mapM fun e => do (← e.getArr?).toList.mapM (lopOfJson rqs)
+  let rec weaveOpt (gaps : List (List LOp)) : List (Option LOp) → List LOp
+    | [] => gaps.flatten
+    | c :: cs => (gaps.headD []) ++ (c.toList ++ weaveOpt gaps.tail cs)
+  match (← j.getArr?).toList with
+  | [.str "clearSeq", names, gaps] =>
+    let ns ← (← names.getArr?).toList.mapM (·.getStr?)
+    pure (weaveOpt (← gapsOf gaps) (ns.map clearOpOf))
+  | [.str "clearPipesSeq", ls, gaps] =>
+    let ls ← (← ls.getArr?).toList.mapM jsonNat?
+    pure (weaveOpt (← gapsOf gaps) (ls.map fun l => some (.clearPipes (some l))))
+  | _ => do pure [← lopOfJson rqs j]
+
 def optNatJson : Option Nat → Json
   | some n => (n : Json)
   | none => Json.null
@@ -171,8 +192,8 @@ def handleSession (j : Json) : Except String Json := do
   let rqs ← (← (← j.getObjVal? "rqs").getArr?).mapM rqOfJson
   let w ← worldOfJson rqs (← j.getObjVal? "world")
   let nc ← boolField j "noCache"
-  let ops ← (← (← j.getObjVal? "ops").getArr?).toList.mapM (lopOfJson rqs)
-  let out := session w { LState.init with noCache := nc } Flags.none ops
+  let ops ← (← (← j.getObjVal? "ops").getArr?).toList.mapM (lopsOfJson rqs)
+  let out := session w { LState.init with noCache := nc } Flags.none ops.flatten
   pure (Json.mkObj [("runs", Json.arr (out.map fun x => Json.mkObj [
     ("ran", optNatJson x.1.ran), ("loaderMade", Json.bool x.1.loaderMade), ("defMade", Json.bool x.1.defMade),
     ("fileRead", Json.bool x.1.fileRead), ("stepMade", Json.bool x.1.stepMade),
